@@ -69,12 +69,15 @@ func engineFixture(verif string) (res fixtureResult) {
 		seen := map[string]bool{}
 		for _, o := range r.Obs {
 			name := o.Where[strings.LastIndex(o.Where, ".")+1:]
+			if i := strings.Index(name, "$"); i >= 0 {
+				name = name[:i] // a function literal counts for the function it is written in
+			}
 			seen[name] = true
 			if o.State == Violated || o.State == Undecided {
 				bad[name] = true
 			}
 		}
-		for _, n := range []string{"badIndex", "goodIndex", "goodExitGuard", "badExitGuardSameBlock", "badSlice", "goodSlice", "goodLoop", "badLoop", "goodSum", "badSum", "goodAfterLoop", "badAfterLoop", "badNestedGuard", "goodToggle", "badToggle"} {
+		for _, n := range []string{"badIndex", "goodIndex", "goodExitGuard", "badExitGuardSameBlock", "badSlice", "goodSlice", "goodLoop", "badLoop", "goodSum", "badSum", "goodAfterLoop", "badAfterLoop", "badNestedGuard", "goodToggle", "badToggle", "goodSortLess", "badSortLess"} {
 			if !seen[n] {
 				res.Failures = append(res.Failures, "fact engine: no site found in "+n)
 				continue
